@@ -187,10 +187,11 @@ def segPieces (ρ : String → Nat) : List Seg → Pieces
   | .lit s :: r => S s :: segPieces ρ r
   | .par n :: r => num (ρ n) :: segPieces ρ r
 
-/-- the `i`-th text the arm of variant `v` can write; an arm that can write nothing panics -/
+/-- the `i`-th text the arm of variant `v` can write; an arm that can write nothing panics (arms whose text is computed are
+written by hand above and never looked up here) -/
 def fromTable (table : List Arm) (v : String) (i : Nat) (ρ : String → Nat) : Pieces :=
   match findArm table v with
-  | some a => (match a.templates[i]? with | some t => segPieces ρ t | none => [.bad])
+  | some a => if a.computed then [.bad] else (match a.templates[i]? with | some t => segPieces ρ t | none => [.bad])
   | none => [.bad]
 
 def ρ0 : String → Nat := fun _ => 0
